@@ -106,7 +106,7 @@ def jacobians(E):
         G.Ket(0) >> G.Rx(x) >> G.Rz(2 * z + x),
         G.Ket(0, 0) >> G.Rx(x) @ G.Rz(z) >> G.CX,
         G.Ket(0) >> G.Rx(x + z) >> G.scalar(x) @ Id(1)])
-    vs = E.choice('vars', [[x, y, z], [z, x], [y], [x, z, y], []])
+    vs = E.choice('vars', [[x, y, z], [z, x], [y], [x, z, y], [], [x], [z]])
     mode = E.choice('mode', ['pure', 'mixed'])
     mixed = mode == 'mixed'
     J = c.jacobian(vs, mixed=mixed)
